@@ -63,6 +63,8 @@ static std::vector<W*> ws;
 static std::vector<time_zone> g_known;   // identity classes of returned zones
 static std::set<int> g_infac;
 static std::map<std::string, int> g_calls;
+static std::map<std::string, std::set<int>> g_retids;   // per behaviour: identity classes returned per name
+static bool g_okmismatch = false;
 static bool g_overlap = false, g_wrongthread = false;
 static long g_seq = 0;
 
@@ -162,13 +164,19 @@ static void do_call(W& w, int tid, const std::string& name) {
   bool ok = load_time_zone(name, &tz);
   // use of the (shared) zone value from this thread: const operations only
   int usebad = 0;
-  if (g_log_stress && ok && strcmp(kind_of(name), "good") == 0) { vt::Rng r((uint64_t)tid * 7919 + (uint64_t)w.ret_gen); usebad = use_zone(tz, r); }
+  if (g_log_stress && ok && !g_ref.ts.empty() && strcmp(kind_of(name), "good") == 0) { vt::Rng r((uint64_t)tid * 7919 + (uint64_t)w.ret_gen); usebad = use_zone(tz, r); }
   std::unique_lock<std::mutex> lk(G);
   w.ok = ok;
   w.isutc = (tz == utc_time_zone());
   w.id = -1;
   for (size_t i = 0; i < g_known.size(); ++i) if (g_known[i] == tz) { w.id = (int)i; break; }
   if (w.id < 0) { g_known.push_back(tz); w.id = (int)g_known.size() - 1; }
+  g_retids[name].insert(w.id);
+  {
+    const char* k = kind_of(name);
+    bool want_ok = strcmp(k, "bad") != 0, want_utc = strcmp(k, "bad") == 0 || strcmp(k, "utc") == 0;
+    if (ok != want_ok || w.isutc != want_utc) g_okmismatch = true;
+  }
   w.in_call = false;
   ++w.ret_gen;
   if (g_log_stress) {
@@ -261,7 +269,9 @@ int main(int argc, char** argv) {
   std::ifstream in(argv[1]);
   g_out = fopen(argv[2], "w");
   { std::ifstream zf(argv[3], std::ios::binary); g_good.assign((std::istreambuf_iterator<char>(zf)), std::istreambuf_iterator<char>()); }
-  build_ref();
+  // --fresh: nothing is loaded before the first behaviour (the very first loads of the process race)
+  bool fresh = argc > 4 && strcmp(argv[4], "--fresh") == 0;
+  if (!fresh) build_ref();
   cctz_verif::yield_hook = hook;
   const int K = 4;
   for (int i = 0; i < K; ++i) ws.push_back(new W);
@@ -274,7 +284,7 @@ int main(int argc, char** argv) {
   std::map<int, std::pair<long, long>> blocked;  // attack mode: released-but-blocked threads
   auto begin_beh = [&]() {
     std::unique_lock<std::mutex> lk(G);
-    g_calls.clear(); g_infac.clear(); g_overlap = false; g_wrongthread = false; g_known.clear();
+    g_calls.clear(); g_infac.clear(); g_overlap = false; g_wrongthread = false; g_known.clear(); g_retids.clear(); g_okmismatch = false;
     g_known.push_back(utc_time_zone());
     blocked.clear();
   };
@@ -344,8 +354,10 @@ int main(int argc, char** argv) {
         std::unique_lock<std::mutex> lk(G);
         int maxc = 0;
         for (auto& kv : g_calls) maxc = std::max(maxc, kv.second);
-        fprintf(g_out, "{\"e\":\"Attack\",\"b\":%ld,\"overlap\":%d,\"maxcalls\":%d,\"wrongthread\":%d}\n", beh, g_overlap ? 1 : 0, maxc,
-                g_wrongthread ? 1 : 0);
+        int agree = 1;
+        for (auto& kv : g_retids) if (kv.second.size() != 1) agree = 0;
+        fprintf(g_out, "{\"e\":\"Attack\",\"b\":%ld,\"overlap\":%d,\"maxcalls\":%d,\"wrongthread\":%d,\"agree\":%d,\"okmismatch\":%d}\n", beh,
+                g_overlap ? 1 : 0, maxc, g_wrongthread ? 1 : 0, agree, g_okmismatch ? 1 : 0);
       }
     } else if (tag == "T") {
       // stress: free running
